@@ -3,7 +3,7 @@ Worker for the S->C binding of spec/Core.tla: every (state, action) case is load
 engine, the action is applied, then undone; what the engine reports before / after / after the undo
 is recorded judgement-free for spec/Trace_Core.tla.
 argv[1] = JSON {"inp": cases file, "out": results file}
-The cases file is a list [{"S": state, "a": action}, ...] (states and actions exactly as MC_Core
+The cases file is a list [{"S": state, "as": [action] or [action, action]}, ...] (states and actions exactly as MC_Core
 exported them); the results file is the same list with the observations added.  One engine serves `REUSE` consecutive cases: each case first
 brings P and O to the case's state through ordinary record removals and additions (so the engine's own
 maintenance of the reverse column, the lookups and the summary table is what builds the derived
@@ -130,7 +130,7 @@ def render(a):
 
 
 def run_case(eng, case):
-  out = {"S": case["S"], "a": case["a"], "exc": "", "uexc": "", "fail": ""}
+  out = {"S": case["S"], "as": case["as"], "exc": "", "uexc": "", "fail": ""}
   empty = {"p": [], "o": [], "s": [], "odd": "not reached"}
   out["before"] = out["after"] = out["undo"] = empty
   try:
@@ -141,7 +141,7 @@ def run_case(eng, case):
     return out, False
   reply = None
   try:
-    reply = adapter.apply(eng, [render(case["a"])])
+    reply = adapter.apply(eng, [render(a) for a in case["as"]])      # one bundle of one or two user actions
   except Exception as e:   # pylint: disable=broad-except
     out["exc"] = type(e).__name__
   out["after"] = observe(eng)
